@@ -37,3 +37,13 @@ func recordEnters(f func()) []string {
 	f()
 	return seq
 }
+
+// recordParse runs f with a hook that logs every nud / led step of the parser as [kind, token type] in the
+// specification's token names (the parser machine's trail, ParserM.tla).
+func recordParse(f func()) []interface{} {
+	seq := []interface{}{}
+	jmespath.VerifParseHook = func(kind string, tok string) { seq = append(seq, []interface{}{kind, tokNames[tok]}) }
+	defer func() { jmespath.VerifParseHook = nil }()
+	f()
+	return seq
+}
